@@ -15,6 +15,10 @@ import lsp_client  # noqa: E402
 from lsp_client import LspServer, make_params  # noqa: E402
 
 ENTRY = "main.asm"
+# no response within this many seconds = "the request did not get a response".  Measured latencies (evidence: distribution.
+# max_request_latency_s) stay below 0.4 s even under load, so the bound is two orders of magnitude above normal.
+REQ_TIMEOUT = 40.0
+LAT = [0.0]
 OUT_OF_RANGE = ("eol1", "eolfar", "eofline", "eoffar", "inchar", "huge", "nofile")
 FIRST_BASED = ("textDocument/hover", "textDocument/definition", "textDocument/rename")   # `defs.first()` of a hash map
 
@@ -184,7 +188,7 @@ def clamp(v):
 def fresh_server(mos, overlay, workdir):
     """a freshly started server that is given only the final contents: every file of the overlay is what it finds, the entry
     point is opened (one analysis, one round of publishDiagnostics)."""
-    s = LspServer(mos, disk={n: t for n, t in overlay.items() if is_file_name(n) and "://" not in n}, workdir=workdir)
+    s = LspServer(mos, disk={n: t for n, t in overlay.items() if is_file_name(n) and "://" not in n}, workdir=workdir, timeout=REQ_TIMEOUT)
     if ENTRY in overlay:
         s.did_open(ENTRY, overlay[ENTRY])
     return s
@@ -193,7 +197,10 @@ def fresh_server(mos, overlay, workdir):
 def send_request(srv, ev):
     p = make_params(srv, ev["method"], ev["file"], ev.get("line", 0), ev.get("ch", 0), new_name=ev.get("new", "renamed"),
                     query=ev.get("query", ""))
-    return srv.request(ev["method"], p)
+    r = srv.request(ev["method"], p)
+    if r.ok:
+        LAT[0] = max(LAT[0], r.elapsed)
+    return r
 
 
 def multi_def_position(fresh, ev):
@@ -234,7 +241,7 @@ def check_history(mos, hist, workdir, out, model=None, stop_at_first=True):
     """runs the history against the real server; evaluates the oracles (liveness, history-vs-fresh, well-formedness) and, if a
     model process is given, the correspondence with model/Lsp.v.  returns [(kind, what, index of the event)]"""
     names = sorted({n for n in list(hist["disk"]) + [e["file"] for e in hist["events"]] + [ENTRY] if is_file_name(n)})
-    srv = LspServer(mos, disk=hist["disk"], workdir=workdir)
+    srv = LspServer(mos, disk=hist["disk"], workdir=workdir, timeout=REQ_TIMEOUT)
     buffers = {}
     fails = []
     analyses = {}        # overlay key -> {"id", "tree", "diags"}
@@ -544,7 +551,7 @@ def positions_grid(rng, mos, model, workdir, n, out, fails):
         rng.shuffle(grid)
         grid = grid[:60]
         m = model.call({"cmd": "positions", "text": T(t), "alnum": alnum_of([t]), "positions": [{"line": l, "col": c} for l, c in grid]})
-        with LspServer(mos, workdir=workdir) as s:
+        with LspServer(mos, workdir=workdir, timeout=REQ_TIMEOUT) as s:
             s.did_open(ENTRY, t)
             for (l, c), mr in zip(grid, m.get("results", [])):
                 for method in ("textDocument/prepareRename", "textDocument/completion"):
@@ -665,7 +672,7 @@ def run(chk):
         "request) resp. (buffer contents) and non-trivial when the request is out of range or the answer / a diagnostics list is "
         "non-empty.  Plus: prepareRename/completion on a grid of all columns (model-predicted ranges), and model-vs-implementation "
         "runs of source_line / find_line_col on every byte offset and of to_deltas on random span lists through `mos verif-probe`.")
-    chk.extra["distribution"] = dict(out.dist, histories=len(hists), requests=out.requests, diag_checks=out.diag_checks,
+    chk.extra["distribution"] = dict(out.dist, histories=len(hists), max_request_latency_s=round(LAT[0], 3), request_timeout_s=REQ_TIMEOUT, requests=out.requests, diag_checks=out.diag_checks,
                                      distinct_nontrivial_requests=out.nontrivial, distinct_nontrivial_diag=out.diag_nontrivial)
     chk.assumptions = [
         "the analysis (parse + codegen) is abstract in the bookkeeping theorems: a deterministic function of what the parsing source "
